@@ -13,14 +13,14 @@ def codecFacts : CodecFacts :=
     som := 23,
     somAlt := 25,
     somAltCode := 32,
-    u16WriteSlice := 4,
+    u16WriteSlice := 2,
     u16ReadSlice := 2,
     u32WriteSlice := 4,
     u32ReadSlice := 4,
     littleEndian := true,
-    byteValueBase := 16,
+    byteValueBase := 0,
     headerValueBase := 0,
-    embeddedErrorReturned := false,
+    embeddedErrorReturned := true,
     macReaderCopies := false,
     ipReaderCopies := true,
     boolTrue := 1,
